@@ -189,3 +189,42 @@ Example C06_blocked_subscriber_close_example :
   | None => false
   end = true.
 Proof. exact blocked_sub_close_example. Qed.
+
+(** ** handlers that were added but never started (D16): [init_u n u] has [u] such handlers *)
+
+(** the pinned code: Close can only time out although nothing runs, nothing is blocked, the
+    context was not cancelled and no system step is enabled *)
+Theorem C06_unstarted_handler_blocks_close_refuted :
+  match replay (init_u 0 1 ignore_ctx true true true false) d16_schedule with
+  | Some s => match cp s 0 with CWait => true | _ => false end && negb (early_cancel s) &&
+              negb (handler_running_b s) && match sys_enabled s 1 with [] => true | _ => false end
+  | None => false
+  end = true.
+Proof. exact d16_witness. Qed.
+Print Assumptions C06_unstarted_handler_blocks_close_refuted.
+
+(** repaired: with any number of never-started handlers the stuck-state theorem and the
+    quiescence theorem hold unchanged *)
+Theorem C06_close_waits_only_for_handlers_or_blocked_subscriber_with_unstarted :
+  forall n u hon f12 sched c,
+    let s := exec (init_u n u hon true true f12 true) sched in
+    cp s c = CWait ->
+    (forall l, sys_label l = true -> step s l = None) ->
+    (exists m, mp s m = MRunning) \/ (exists h, hc s h = HCInSubClose) \/ early_cancel s = true.
+Proof. exact close_waits_only_for_u. Qed.
+Print Assumptions C06_close_waits_only_for_handlers_or_blocked_subscriber_with_unstarted.
+
+Theorem C06_close_nil_implies_quiescent_with_unstarted :
+  forall n u hon f6 f16 sched c,
+    let s := exec (init_u n u hon true f6 true f16) sched in
+    cp s c = CRet RNil -> quiescent s.
+Proof. exact close_nil_implies_quiescent_u. Qed.
+Print Assumptions C06_close_nil_implies_quiescent_with_unstarted.
+
+Example C06_unstarted_handler_fixed_example :
+  match replay (init_u 0 1 ignore_ctx true true true true)
+               (d16_schedule ++ [LW1; LW2; LW2; LW2; LWaitDone 0; LClose 0; LClose 0; LRun]) with
+  | Some s => returned s 0 RNil && match run s with RDone => true | _ => false end
+  | None => false
+  end = true.
+Proof. exact d16_fixed_returns_nil. Qed.
